@@ -82,7 +82,7 @@ def all_calls(rng, w, objs):
 
 
 def gen_cases(rng, tier):
-    n_worlds = {"quick": 36, "thorough": 420}[tier]
+    n_worlds = {"quick": 30, "thorough": 170}[tier]
     cases = []
     tries = 0
     while len([c for c in cases if c["kind"] == "walk"]) < n_worlds * 6 and tries < n_worlds * 3:
@@ -229,6 +229,39 @@ def nontrivial(c, res):
     return len(steps) >= 2 and (True in apps) and (False in apps)
 
 
+def lex_part(rep, args, rng):
+    """the text layer alone, exhaustively on a small scope: parse_action_call on EVERY text of length <= N over
+    { ( ) blank a B TAB ; } plus random longer ones; model vs implementation only"""
+    import itertools
+    from ..common import add_shard_obligations, write_replay
+    alphabet = ["(", ")", " ", "a", "B", "\t", ";"]
+    maxlen = {"quick": 3, "thorough": 5}[args.tier]
+    texts = ["".join(t) for n in range(maxlen + 1) for t in itertools.product(alphabet, repeat=n)]
+    n_exh = len(texts)
+    for _ in range({"quick": 300, "thorough": 3000}[args.tier]):
+        texts.append("".join(rng.choice(alphabet + ["(", ")", " ", "x", "\n", "-", "Z9"]) for _ in range(rng.randint(maxlen + 1, 14))))
+    chunks = [texts[i:i + 400] for i in range(0, len(texts), 400)]
+    res = [r for out in run_impl([{"op": "c04.lex", "texts": ch} for ch in chunks]) for r in out]
+    lits = []
+    for t, r in zip(texts, res):
+        ob = "(Returned (%s, %s))" % (cstr(r["name"]), clist([cstr(x) for x in r["params"]])) if "name" in r else "Raised"
+        lits.append("{| x_text := %s; x_obs := %s |}" % (cstr(t), ob))
+    verdicts, info = run_case_shards(PROP + "/lex", CORR, lits, shard_size=2500, run_fn="Corr.C04.run_lex", max_bytes=100_000)
+    cov = rep.coverage
+    cov["obligations"] = cov.get("obligations", 0) + info["shards"]
+    cov["discharged"] = cov.get("discharged", 0) + info["shards"] - len(info["shard_errors"])
+    bad = [i for i, ch in enumerate(verdicts) if ch != "."]
+    cov["lexical_scope"] = {"alphabet": alphabet, "max_length_exhaustive": maxlen, "texts_exhaustive": n_exh,
+                            "texts_random_longer": len(texts) - n_exh, "returned": sum(1 for r in res if "name" in r),
+                            "raised": sum(1 for r in res if "raised" in r), "disagreements": len(bad), "shards": info["shards"]}
+    cov["evaluations"] = cov.get("evaluations", 0) + len(texts)
+    cov["traces_validated_against_impl"] = cov.get("traces_validated_against_impl", 0) + len(texts) - len(bad)
+    for i in bad[:3]:
+        rep.violation(write_replay(PROP, "lex_%05d" % i, {"kind": "correspondence", "why": "parse_action_call: implementation differs "
+                      "from the model on this text (text layer only; no spec judgement)", "input": {"text": texts[i]},
+                      "implementation": res[i], "verdict": verdicts[i]}), False)
+
+
 def run(args):
     rep = Report(PROP, args.tier, args.seed)
     standard_proof_part(rep, PROP)
@@ -239,7 +272,7 @@ def run(args):
     else:
         cases = corpus_cases() + fixture_cases(args.tier) + gen_cases(rng, args.tier)
     cfg = run_impl([{"op": "core.numeric_config"}], nproc=1)[0]
-    hashseeds = [0] if args.tier == "quick" else [0, 1, 2]
+    hashseeds = [0] if args.tier == "quick" else [0, 1]
     all_cases, all_verdicts = [], ""
     info_total = {"shards": 0, "shard_errors": [], "cmd": ""}
     dist = {"cases": 0, "by_kind": {}, "plan_length": {}, "allow": {"false": 0, "true": 0}, "noisy_lines": 0,
@@ -303,6 +336,8 @@ def run(args):
                     dist["direct_returned" if "value" in d else "direct_refused" if "refused" in d else "direct_other_error"] += 1
     decide(rep, PROP, CORR, all_cases, all_verdicts, info_total, explain_expr="Corr.C04.explain %s", header_extra=HEADER,
            max_replays=5)
+    if not args.replay:
+        lex_part(rep, args, rng)
     cov = rep.coverage
     cov["input_distribution"] = dist
     cov["hash_seeds"] = hashseeds
